@@ -97,6 +97,7 @@ structure WellFormed (cfg : Cfg) (b64 : String → Bool) (h : Hdr) (tx : Tx) : P
   cty : tx.cty = h.cty ∧ containsSlash h.cty = true
   keyRef : tx.jwk = h.hasJwk ∧ tx.kid = h.kid.getD "" ∧ ((h.hasJwk = true ∧ h.kid.getD "" = "") ∨ (h.hasJwk = false ∧ h.kid.getD "" ≠ ""))
   jwkPublic : cfg.jwkPublicOnly = true → h.hasJwk = true → h.jwkPrivate = false
+  framing : cfg.strictFraming = true → h.framingStrict = true
   sigt : ∃ m e, h.get cfg.sigtH = some (.num m e) ∧ tx.sigt = toInt64 m e
   ver : ∃ m e, h.get cfg.verH = some (.num m e) ∧ tx.ver = toInt64 m e ∧ tx.ver ∈ cfg.allowedVersion
   prevs : ∃ l, h.get cfg.prevsH = some (.arr l) ∧ parsePrevEls cfg.prevsH l = .ok tx.prevs
@@ -109,6 +110,9 @@ theorem parse_wellFormed {cfg : Cfg} {b64 : String → Bool} {h : Hdr} {tx : Tx}
   unfold parse at hp
   split at hp
   · cases hp
+  rename_i hfr
+  split at hp
+  · cases hp
   split at hp
   · cases hp
   rename_i h0 h1
@@ -116,7 +120,7 @@ theorem parse_wellFormed {cfg : Cfg} {b64 : String → Bool} {h : Hdr} {tx : Tx}
   obtain ⟨_, ha, payload, hpl, cty, hcty, kid, hkid, sigt, hsigt, ver, hver, prevs, hprevs, pal, hpal, lc, hlc, htx⟩ := hp
   simp only [pure, Res.ok.injEq] at htx
   subst htx
-  refine ⟨by omega, ?_, ?_, ?_, ?_, ?_, ?_, ?_, ?_, ?_, ?_, rfl⟩
+  refine ⟨by omega, ?_, ?_, ?_, ?_, ?_, ?_, ?_, ?_, ?_, ?_, ?_, rfl⟩
   · unfold parseSigningAlgorithm at ha
     split at ha
     · rename_i hc; exact ⟨rfl, by simpa using hc⟩
@@ -147,6 +151,10 @@ theorem parse_wellFormed {cfg : Cfg} {b64 : String → Bool} {h : Hdr} {tx : Tx}
       intro h1 h2
       simp [h1, h2] at hc
       exact hc
+  · intro hs
+    cases hf : h.framingStrict with
+    | true => rfl
+    | false => simp [hs, hf] at hfr
   · unfold parseSigningTime at hsigt
     split at hsigt
     · cases hsigt
